@@ -54,6 +54,8 @@ def canon_exc(e):
     for c, frag, kind in ERR_TABLE:
         if c == cls and frag in msg:
             return "err %s:%s" % (cls, kind)
+    if cls == "ArgumentError":          # Boost.Python overload resolution failed: argument classes do not fit
+        return "err ArgumentError:signature"
     return "err %s:%s" % (cls, re.sub(r"\s+", "_", msg)[:80])
 
 
@@ -366,7 +368,8 @@ def convert_target(imath, clsname):
         return None
     prefer = {"IntArray": ["FloatArray", "DoubleArray"], "FloatArray": ["DoubleArray", "IntArray"],
               "DoubleArray": ["FloatArray", "IntArray"]}
-    names = prefer.get(clsname, []) + array_classes(imath)
+    fam = re.match(r"^(V\d|C\d|M\d\d|Box\d|Quat|Euler)", clsname)
+    names = prefer.get(clsname, []) + ([n for n in array_classes(imath) if fam and n.startswith(fam.group(1))] if fam else [])
     for n in names:
         if n == clsname or n in ("StringArray", "WstringArray") or n.startswith("V") and not n[1].isdigit():
             continue
@@ -408,7 +411,11 @@ class SpecErr(Exception):
 
 
 class SpecExec:
-    def __init__(self):
+    def __init__(self, quirks=False):
+        # quirks=True (used ONLY by the random generator to keep its view numbering in step with the real
+        # module) reproduces two known rejections of the code: empty backward slices whose start normalises
+        # to -1, and ifelse on a read-only source
+        self.quirks = quirks
         self.reset()
 
     def reset(self):
@@ -439,6 +446,8 @@ class SpecExec:
                 return [r[idx]]
             except IndexError:
                 raise SpecErr("indexError", "IndexError")
+        if self.quirks and idx.step is not None and idx.step < 0 and idx.indices(len(v))[0] == -1:
+            raise SpecErr("domainError", "RuntimeError")
         try:
             return list(r[idx])
         except ValueError:
@@ -464,6 +473,8 @@ class SpecExec:
         if op == "getslice":
             v = self.ref(t[1]); idx = p_idx(t[2])
             l = v.tolist()
+            if self.quirks:
+                self.sel_of(v, idx)
             try:
                 return self.new(SV(l[idx] if isinstance(idx, slice) else [l[idx]]))
             except ValueError:
@@ -544,6 +555,8 @@ class SpecExec:
             if len(c) != len(v):
                 raise SpecErr("dimMismatch")
             a = v.tolist(); bits = c.tolist()
+            if self.quirks and not v.writable and any(bits):
+                raise SpecErr("readOnly")
             if op == "ifelsev":
                 o = self.ref(t[3])
                 if len(o) != len(v):
@@ -726,8 +739,16 @@ class SpecExec:
 
 # ----------------------------------------------------------------------------------------------
 
-def serve(ex, inp, out):
-    w = out.write
+def serve(ex, inp, out, flush=False):
+    if flush:
+        _w = out.write
+
+        def w(x):
+            _w(x)
+            out.flush()
+        inp = iter(inp.readline, "")
+    else:
+        w = out.write
     for line in inp:
         t = line.split()
         if not t:
@@ -758,9 +779,10 @@ def main():
     ap = argparse.ArgumentParser()
     ap.add_argument("--mode", default="real")
     ap.add_argument("--cls", default="IntArray")
+    ap.add_argument("--flush", action="store_true", help="flush after every line (interactive use through pipes)")
     a = ap.parse_args()
     if a.mode == "spec":
-        serve(SpecExec(), sys.stdin, sys.stdout)
+        serve(SpecExec(), sys.stdin, sys.stdout, a.flush)
     elif a.mode == "classes":
         import imath
         res = {}
@@ -782,7 +804,7 @@ def main():
                       "convert": ct[0].__name__ if ct else None}
         json.dump(res, sys.stdout)
     else:
-        serve(RealExec(a.cls), sys.stdin, sys.stdout)
+        serve(RealExec(a.cls), sys.stdin, sys.stdout, a.flush)
 
 
 if __name__ == "__main__":
